@@ -163,8 +163,8 @@ class Conc:
         lvl = self.level
         if self.kind == "operator":
             cs = rp["children"]
-            n = {"k1": 1, "k2": 2, "k3": 3, "seq": 2}[cs]
-            ids = [f"c{j}" for j in range(1, n + 1)]
+            ids = {"k1": ["c1"], "k2": ["c1", "c2"], "k3": ["c1", "c2", "c3"], "seq": ["c1", "c2"],
+                   "k2same": ["c1", "c1"], "k3same": ["c1", "c2", "c1"]}[cs]
             kids = [self.child(c, lvl) for c in ids]
             return self.with_times(rp["op"], kids), ids
         if self.kind == "mnemonic":
@@ -173,6 +173,17 @@ class Conc:
             ids = [f"c{j}" for j in range(1, n + 1)]
             kids = [self.child(c, "OPER") for c in ids]
             return self.with_times(self.name("w"), kids or None), ids
+        if self.kind == "deref":
+            fields = rp.get("fields")
+            if not fields:
+                short = {"main_reg": "a", "register_multiplier": "b", "constant_multiplier": "c", "constant_offset": "k"}
+                fields = {}
+                for f in rp["present"]:
+                    self.child_items[short[f]] = "zd" + short[f]
+                    self.child_text[short[f]] = "zd" + short[f]
+                    self.names["n" + short[f]] = "zn" + short[f]
+                    fields[f] = "zd" + short[f]
+            return self.with_times("$deref", dict(fields)), []
         if self.kind == "operand":
             nm: Any = self.name("v")
             if rp.get("cat") == "int":
@@ -180,12 +191,12 @@ class Conc:
             return nm, []
         raise KeyError(self.kind)
 
-    def rule(self) -> Dict[str, Any]:
+    def rule(self, context: bool = False) -> Dict[str, Any]:
         item, _ids = self.node_yaml()
         if self.level == "INST":
-            pat = [item]
+            pat = ["zpre", item, "zpost"] if context else [item]
         elif self.level == "OPER":
-            pat = [{"zzm": [item]}]
+            pat = [{"zzm": (["opre", item, "opost"] if context else [item])}]
         else:
             pat = [{"zzm": [{"$deref": {"main_reg": item}}]}]
         cfg = {"mnemonics-full-match": self.fm, "operands-full-match": self.fo}
@@ -268,8 +279,8 @@ def neighbourhood(conc: Conc, rule: Dict[str, Any], seed: int = 0, limit: int = 
     rnd = random.Random(seed)
     conc.node_yaml()
     names = list(conc.names.values()) or ["qqw"]
-    mns = list(dict.fromkeys(["zzm", "nop"] + names + [v for v in conc.child_items.values() if isinstance(v, str) and v.startswith("zc")]))
-    flds = list(dict.fromkeys(["", "x"] + names + [n + "x" for n in names] + ["x" + n for n in names]
+    mns = list(dict.fromkeys(["zzm", "nop", "zpre", "zpost"] + names + [v for v in conc.child_items.values() if isinstance(v, str) and v.startswith("zc")]))
+    flds = list(dict.fromkeys(["", "x", "opre", "opost"] + names + [n + "x" for n in names] + ["x" + n for n in names]
                                + [v for v in conc.child_items.values() if isinstance(v, str) and not v.startswith("zc")]))
     out = []
     for _ in range(limit):
@@ -286,7 +297,7 @@ def neighbourhood(conc: Conc, rule: Dict[str, Any], seed: int = 0, limit: int = 
 def confirm(ob: Dict[str, Any]) -> Tuple[Optional[Dict[str, Any]], str]:
     """try to produce a confirmed failing input for a refuted obligation"""
     rp = ob.get("replay") or {}
-    if rp.get("kind") not in ("operator", "mnemonic", "operand"):
+    if rp.get("kind") not in ("operator", "mnemonic", "operand", "deref"):
         return None, "no concretiser for this obligation kind"
     if ob.get("detail", "").startswith("counter-model"):
         rp = dict(rp, model=ob.get("witness", ""))
@@ -301,18 +312,25 @@ def confirm(ob: Dict[str, Any]) -> Tuple[Optional[Dict[str, Any]], str]:
         s = conc.stream(word)
         recs = parse_stream(s)
         if recs is not None:
-            cands.append(recs)
-    cands.extend(neighbourhood(conc, rule))
-    jobs = [{"rule": rule, "insts": insts_of(r), "mode": "all"} for r in cands]
+            cands.append((rule, recs, "witness"))
+    for r in neighbourhood(conc, rule):
+        cands.append((rule, r, "bounded-search"))
+    try:
+        rule2 = conc.rule(context=True)
+        for r in neighbourhood(conc, rule2, seed=1):
+            cands.append((rule2, r, "bounded-search (node between neighbours)"))
+    except Exception:
+        pass
+    jobs = [{"rule": ru, "insts": insts_of(r), "mode": "all"} for (ru, r, _h) in cands]
     try:
         res = run_real(jobs)
     except Exception as e:
         return None, f"replay runner: {e}"
-    for recs, r in zip(cands, res):
-        why = compare(rule, recs, r)
+    for (ru, recs, how), r in zip(cands, res):
+        why = compare(ru, recs, r)
         if why:
-            return {"rule": rule, "instructions": insts_of(recs), "stream": OR.stream_of(recs), "real": r,
-                    "disagreement": why, "found_by": "witness" if recs is cands[0] and word is not None else "bounded-search"}, why
+            return {"rule": ru, "instructions": insts_of(recs), "stream": OR.stream_of(recs), "real": r,
+                    "disagreement": why, "found_by": how}, why
     return None, f"{len(cands)} concrete inputs around the witness agree with the reference semantics"
 
 
